@@ -21,7 +21,7 @@ RULE = (
 ASSUMPTIONS = ["fake processes in the virtual lane; 'held' = tasks that reached the process factory and whose coroutine has not finished"]
 
 
-QUICK_BUDGET = {"cases": 18000, "deadline_s": 170, "case_timeout_s": 90, "floors": {"spawn_events": 30000, "quiescent_points": 119499, "real_intervals": 20}}
+QUICK_BUDGET = {"cases": 18000, "deadline_s": 170, "case_timeout_s": 90, "floors": {"spawn_events": 30000, "quiescent_points": 119499, "real_intervals": 20, "pinned_pool_checked": 6}}
 THOROUGH_FACTOR = 17  # thorough = the same workload with 17x the cases (floors scale along)
 
 
